@@ -184,7 +184,7 @@ func init() {
 	register("C08", "R9", 2, "the PROXY-protocol wrapper is part of every listener that asks for it: on every path of Listener.Listen on which ProxyProtocolConfig is set, the listener that is kept wraps a proxyproto.Listener over the raw socket, whatever other wrappers (rate limits) are configured", listenerStack)
 	register("C20", "R5", 2, "the rate-limit wrapper is part of every listener that asks for it: on every path of Listener.Listen on which a limit is positive, the listener that is kept is (built over) ratelimit.NewListener, whatever other wrappers are configured (same decision as C08.R9)", listenerStack)
 	register("C10", "R13", 10, "frames keep flowing after connection-level frames: processFrame reports an error only when something failed - on a path where every write, decode and processor call succeeded it returns that call's own (nil) result, never a sentinel that makes the relay stop reading", c10r13)
-	register("C12", "R12", 1, "the accept loop survives transient accept failures (EMFILE, ECONNABORTED): the back-off-and-retry branch of Serve is taken for every net.Error that reports Temporary()", c12r12)
+	register("C12", "R12", 1, "the accept loop survives transient accept failures (EMFILE, ECONNABORTED): the back-off-and-retry branch of Serve is taken for every net.Error that reports Temporary()", acceptRetriesTemporary)
 	register("C14", "R7", 2, "the Ex helpers answer for both address families: isResolvableEx and isInNetEx resolve through dnsResolveEx (network \"ip\"), never through the IPv4-only dnsResolve", c14r7)
 	register("C14", "R8", 6, "evaluations are independent of each other: helper functions keep no state in the resolver - outside its constructor nothing stores into, or updates a map held by, a ProxyResolver field (a pooled resolver is reused for unrelated requests)", c14r8)
 }
